@@ -76,4 +76,16 @@ PROPS = {
         "level_text": "Machine-checked Lean 4 theorems: decode_encode (every well-formed Response value of the protocol grammar is decoded field for field, via decodePackage/Action/Manifest/Urls/UpdateCheck/StatusStruct/App/DayStart_enc), accepted_has_required + req_missing/req_duplicate/as*_mistyped (missing, duplicated or wrongly typed required members are rejected), opt_absent/opt_null/opt_empty_string (absent = null, empty is kept), prefix_neutral / no_prefix_unchanged / double_prefix_rejected, parse_total, full_urls_product/length/mem; the JSON text reader and the typing rules are run against the real parse_json_response on every invocation.",
         "level_note": "Trusted: Lean kernel; the hand-written model of serde_json + serde derive; harness and diff. decode_encode is proved at the JSON-value level; the text-level round trip is established by the correspondence only.",
     },
+    "C03": {
+        "lean_modules": ["Omaha.Props.C03"],
+        "streams": [{"name": "uri", "file": "uri", "args": ["uri"], "outside_ok": True}],
+        "rule": "service URLs from a component grammar (14 schemes incl. mixed case / non-http / malformed, 25 authorities incl. IPv6 literals, userinfo, ports, percent signs, bracket and colon errors, 16 paths, 16 queries incl. a pre-existing cup2key, 5 fragments, several separators, origin form), "
+                "every string over {h : / ? # @ [ ] % a . *} up to length 3 (quick) / 5 (thorough) alone and after 'http://h'; the real decorate_request runs on an Intermediate, its nonce is read back from the returned metadata; "
+                "compared: decorated URL text, key id, metadata body = serialised body; nonce distinctness over the whole run is checked directly; non-trivial = every case; distinct = (component indices) / string",
+        "trusted_extra": ["modelled, not verified: http::Uri parsing/printing (Scheme2::parse, Authority::parse, PathAndQuery::from_shared, from_parts, Display), format! of u64 and hex::encode",
+                          "uniqueness of nonces is a property of the RNG: observed (pairwise distinct over each run), not proved"],
+        "assumptions": ["an empty URI path and '/' are the same path; the scheme is compared case-insensitively (http/https are printed lower-case)"],
+        "level_text": "Machine-checked Lean 4 theorems over all URL byte strings, key ids and nonces: decorate_text (what the decorated URL is made of), appendQuery_parts, one_parameter_added, cup2key_shape (64 hex digits for a 32-byte nonce), param_chars, parse_wf, reparse and decorate_preserves (for http/https/origin-form URLs the decorated text parses back to the same scheme, authority, path and the old query followed by exactly the cup2key parameter); the URL model is run against the real StandardCupv2Handler::decorate_request on every invocation.",
+        "level_note": "Trusted: Lean kernel; the hand-written model of http::Uri; harness and diff. reparse is proved for http, https and origin-form URLs (other schemes: correspondence only). The history-level clauses (every request of a check is decorated, metadata = wire bytes, one nonce per request) are carried by the state-machine stream once C02/C06 are claimed.",
+    },
 }
